@@ -44,6 +44,46 @@ def _registry_field(ctx: Ctx):
     raise AnalysisError("registry dict of the plug-in manager not found")
 
 
+def _strip_alts(t: Term):
+    while t[0] in ("mut", "update", "setattr"):
+        t = t[1]
+    if t[0] == "phi":
+        return [x for a in t[1] for x in _strip_alts(a)]
+    return [t]
+
+
+def _is_reg(ctx: Ctx, m: Func, e: ast.AST, reg: str) -> bool:
+    """The expression denotes the registry attribute of the manager (possibly through a local)."""
+    return any(a[0] == "attr" and a[2] == reg and a[1][0] == "param" for a in _strip_alts(ctx.X.at(m, e)))
+
+
+def _is_subreg(ctx: Ctx, m: Func, e: ast.AST, reg: str) -> bool:
+    """The expression denotes the per-type dict `registry[type]` (possibly through a local)."""
+    for a in _strip_alts(ctx.X.at(m, e)):
+        if a[0] == "sub" and any(b[0] == "attr" and b[2] == reg and b[1][0] == "param" for b in _strip_alts(a[1])):
+            return True
+    return False
+
+
+def _norm(t: Term) -> Term:
+    from ..pattern import norm
+
+    return norm(t)
+
+
+def _term_is_subreg(t: Term, reg: str) -> bool:
+    for a in _strip_alts(t):
+        if a[0] == "sub" and any(b[0] == "attr" and b[2] == reg and b[1][0] == "param" for b in _strip_alts(a[1])):
+            return True
+    return False
+
+
+def _leaves(t: Term):
+    from ..util import guard_leaves
+
+    return list(guard_leaves(t, strip_wrappers=False))
+
+
 def _is_lowered(ctx: Ctx, t: Term) -> bool:
     """t is `<x>.lower()` / casefold, or derived from one by indexing/splitting."""
     if t[0] == "phi":
@@ -68,18 +108,19 @@ def c19_1(ctx: Ctx) -> RuleResult:
     for m in c.methods.values():
         if m is init:
             continue
-        # keys: self._plugins[type][KEY], self._plugins[type].get(KEY), KEY in self._plugins[type], {KEY: plugin}
+        # keys: <sub-registry>[KEY], <sub-registry>.get(KEY), KEY in <sub-registry>, <registry>[type] = {KEY: plugin, ...}
+        # (the sub-registry may be held in a local)
         for node in nodes_in(m, (ast.Subscript, ast.Call, ast.Compare, ast.Dict)):
             keys = []
-            if isinstance(node, ast.Subscript) and isinstance(node.value, ast.Subscript) and reg in ast.unparse(node.value.value):
+            if isinstance(node, ast.Subscript) and _is_subreg(ctx, m, node.value, reg):
                 keys.append(node.slice)
-            elif isinstance(node, ast.Call) and isinstance(node.func, ast.Attribute) and node.func.attr in ("get", "pop", "setdefault") and reg in ast.unparse(node.func.value) and node.args:
+            elif isinstance(node, ast.Call) and isinstance(node.func, ast.Attribute) and node.func.attr in ("get", "pop", "setdefault") and node.args and _is_subreg(ctx, m, node.func.value, reg):
                 keys.append(node.args[0])
-            elif isinstance(node, ast.Compare) and len(node.ops) == 1 and isinstance(node.ops[0], (ast.In, ast.NotIn)) and reg in ast.unparse(node.comparators[0]):
+            elif isinstance(node, ast.Compare) and len(node.ops) == 1 and isinstance(node.ops[0], (ast.In, ast.NotIn)) and _is_subreg(ctx, m, node.comparators[0], reg):
                 keys.append(node.left)
             elif isinstance(node, ast.Dict):
                 p_ = parent(node)
-                if isinstance(p_, ast.Assign) and any(reg in ast.unparse(t) for t in p_.targets):
+                if isinstance(p_, ast.Assign) and any(isinstance(t, ast.Subscript) and _is_reg(ctx, m, t.value, reg) for t in p_.targets):
                     keys += [k for k in node.keys if k is not None]
             for k in keys:
                 n_keys += 1
@@ -115,37 +156,73 @@ def c19_2(ctx: Ctx) -> RuleResult:
         raise AnalysisError("add_plugin / get_plugin / is_supported not found")
     CONFIG_ERR = "ropt.exceptions.ConfigError"
 
+    from ..util import bool_nnf, path_condition
+
+    def lits_at(f_, stmt, extra=()):
+        pc = list(path_condition(ctx, f_, stmt)) + list(extra)
+        if not pc:
+            return []
+        g_ = bool_nnf(("bool", "and", tuple(c_ if p else ("unary", "not", c_) for c_, p in pc)))
+        return [(it[1], it[2]) for it in (g_[1] if g_[0] == "and" else [g_]) if it[0] == "lit"]
+
+    def stmt_of(n_):
+        while parent(n_) is not None and not isinstance(n_, ast.stmt):
+            n_ = parent(n_)
+        return n_
+
     # ---- add_plugin: duplicate check raises before any store
     cfg = cfg_of(ctx.repo, add)
     pf = PathFinder(cfg, dataflow_of(ctx.repo, add))
     dup_tests = set()
     for n in nodes_in(add, ast.If):
         t = n.test
-        if isinstance(t, ast.Compare) and isinstance(t.ops[0], ast.In) and reg in ast.unparse(t.comparators[0]):
+        if isinstance(t, ast.Compare) and len(t.ops) == 1 and isinstance(t.ops[0], ast.In) and _is_subreg(ctx, add, t.comparators[0], reg):
             if any(isinstance(x, ast.Raise) and CONFIG_ERR == cfg._exc_qual(x.exc) for s in n.body for x in ast.walk(s)):
                 dup_tests.update(cfg.node_containing(t))
-    stores = [n for n in nodes_in(add, ast.Assign) if any(reg in ast.unparse(t) for t in n.targets)]
-    for s in stores:
-        ok = bool(dup_tests) and all(any(cfg.dominates(d, sn) for d in dup_tests) for sn in cfg.node_containing(s))
-        res.add(add, s, "the duplicate-name test (raising ConfigError) precedes every registry store", ok,
-                "" if ok else "a plug-in can be registered without the duplicate check: an existing name is silently replaced", construct=f"add_plugin: {norm_stmt(s)[:60]}")
-    # prioritised insertion: new dict starting with the new name, then update with the old registry
-    prio = [n for n in nodes_in(add, ast.If) if isinstance(n.test, ast.Name) and n.test.id == "prioritize"]
+    item_stores, replace_stores = [], []
+    for n in nodes_in(add, ast.Assign):
+        for t in n.targets:
+            if isinstance(t, ast.Subscript) and _is_subreg(ctx, add, t.value, reg):
+                item_stores.append(n)
+            elif isinstance(t, ast.Subscript) and _is_reg(ctx, add, t.value, reg):
+                replace_stores.append(n)
+    stores = item_stores + replace_stores
+    for s_ in stores:
+        ok = bool(dup_tests) and all(any(cfg.dominates(d, sn) for d in dup_tests) for sn in cfg.node_containing(s_))
+        res.add(add, s_, "the duplicate-name test (raising ConfigError) precedes every registry store", ok,
+                "" if ok else "a plug-in can be registered without the duplicate check: an existing name is silently replaced", construct=f"add_plugin: {norm_stmt(s_)[:60]}")
+    # prioritised insertion: a new dict starting with the new name, then the old registry in its order;
+    # normal registration appends (item store)
     ok = False
-    if prio:
-        body = prio[0].body
-        new_dicts = [s for s in body if isinstance(s, ast.Assign) and isinstance(s.value, ast.Dict) and len(s.value.keys) == 1 and any(reg in ast.unparse(t) for t in s.targets)]
-        updates = [s for s in body if isinstance(s, ast.Expr) and isinstance(s.value, ast.Call) and isinstance(s.value.func, ast.Attribute) and s.value.func.attr == "update"]
-        saved = [s for s in body if isinstance(s, ast.Assign) and reg in ast.unparse(s.value) and isinstance(s.targets[0], ast.Name)]
-        if new_dicts and updates and saved:
-            order_ok = body.index(saved[0]) < body.index(new_dicts[0]) < body.index(updates[0])
-            upd_arg = ast.unparse(updates[0].value.args[0]) if updates[0].value.args else ""
-            ok = order_ok and saved[0].targets[0].id in upd_arg
-        # the non-prioritised branch appends at the end
-        plain = [s for s in prio[0].orelse if isinstance(s, ast.Assign) and isinstance(s.targets[0], ast.Subscript)]
-        ok = ok and bool(plain)
-    res.add(add, prio[0] if prio else add.node, "prioritised registration rebuilds the registry with the new plug-in first, then all previous ones in their order; normal registration appends", ok,
-            "" if ok else "prioritised plug-ins are not placed before the existing ones (or existing order is lost)", construct="add_plugin: prioritised first")
+    why = "prioritised plug-ins are not placed before the existing ones (or existing order is lost)"
+    prio_p = ("param", add.qualname, "prioritize") if "prioritize" in add.params else None
+
+    def prio_pol(lits):
+        for a, p in lits:
+            if a == prio_p:
+                return p
+        return None
+
+    for rs_ in replace_stores:
+        d_ = rs_.value
+        if not isinstance(d_, ast.Dict) or not d_.keys or d_.keys[0] is None:
+            continue
+        if prio_p is None or prio_pol(lits_at(add, rs_)) is not True:
+            continue
+        first_is_new = X.at(add, d_.values[0]) == ("param", add.qualname, add.positional[-1] if "plugin" not in add.params else "plugin") and _is_lowered(ctx, X.at(add, d_.keys[0]))
+        rest_ok = False
+        if len(d_.keys) == 2 and d_.keys[1] is None and _is_subreg(ctx, add, d_.values[1], reg):
+            rest_ok = True  # {new: plugin, **old}
+        elif len(d_.keys) == 1:
+            # old = registry[type]  (before) ... registry[type] = {new: plugin} ... registry[type].update(old)  (after)
+            saved = [a_ for a_ in nodes_in(add, ast.Assign) if a_.lineno < rs_.lineno and isinstance(a_.targets[0], ast.Name) and _is_subreg(ctx, add, a_.value, reg)]
+            upd = [c_ for c_ in calls_in(add) if isinstance(c_.func, ast.Attribute) and c_.func.attr == "update" and c_.lineno > rs_.lineno and c_.args and _is_subreg(ctx, add, c_.func.value, reg)]
+            rest_ok = bool(saved) and any(any(isinstance(x, ast.Name) and x.id == saved[0].targets[0].id for x in ast.walk(u.args[0])) for u in upd)
+        appends = [i_ for i_ in item_stores if prio_pol(lits_at(add, i_)) is False]
+        if first_is_new and rest_ok and appends:
+            ok = True
+    res.add(add, replace_stores[0] if replace_stores else add.node, "prioritised registration rebuilds the registry with the new plug-in first, then all previous ones in their order; normal registration appends", ok,
+            "" if ok else why, construct="add_plugin: prioritised first")
 
     # ---- get_plugin
     cfg = cfg_of(ctx.repo, get)
@@ -155,50 +232,75 @@ def c19_2(ctx: Ctx) -> RuleResult:
     ok = any((cl.func.attr == "partition") or any(kw.arg == "maxsplit" and isinstance(kw.value, ast.Constant) and kw.value.value == 1 for kw in cl.keywords) for cl in splits) and all(
         cl.args and isinstance(cl.args[0], ast.Constant) and cl.args[0].value == "/" for cl in splits)
     res.add(get, splits[0] if splits else get.node, "the method specification is split on the first '/' only", ok, "" if ok else "method names containing '/' are split wrongly", construct="get_plugin: split")
-    loops = [n for n in nodes_in(get, ast.For)]
-    branches = [n for n in nodes_in(get, ast.If) if "len(" in ast.unparse(n.test)]
-    ok = len(loops) == 1 and len(branches) >= 1
-    explicit_ok = disc_ok = False
-    if ok:
-        br, lp = branches[0], loops[0]
-        explicit_body = br.body if ">" in ast.unparse(br.test) else br.orelse
-        disc_body = br.orelse if ">" in ast.unparse(br.test) else br.body
-        in_disc = any(lp is x for s in disc_body for x in ast.walk(s))
-        in_expl = any(lp is x for s in explicit_body for x in ast.walk(s))
-        # explicit: return only under `plugin and plugin.is_supported(method)`, plugin from registry.get(lowercase name)
-        rets = [x for s in explicit_body for x in ast.walk(s) if isinstance(x, ast.Return)]
-        explicit_ok = in_disc and not in_expl and len(rets) == 1
-        if explicit_ok:
-            r_ = rets[0]
-            cond = parent(r_)
-            ct = X.value_at(get, cond.test) if isinstance(cond, ast.If) else ("const", None)
-            rv = X.at(get, r_.value)
-            explicit_ok = (
-                ct[0] == "bool" and ct[1] == "and" and ct[2][0] == rv
-                and any(s[0] == "call" and s[1][0] == "attr" and s[1][2] == "is_supported" and s[1][1] == rv for s in subterms(ct))
-                and rv[0] == "call" and rv[1][0] == "attr" and rv[1][2] == "get"
-            )
-        # discovery: iterate registry values in order; return first with allows_discovery and is_supported
-        it = X.at(get, lp.iter)
-        iter_ok = it[0] == "call" and it[1][0] == "attr" and it[1][2] == "values" and reg in show(it) and not contains(it, lambda s: s[0] == "call" and s[1][0] == "builtin" and s[1][1] in ("sorted", "reversed", "set"))
-        rets = [x for s in lp.body for x in ast.walk(s) if isinstance(x, ast.Return)]
-        disc_ok = iter_ok and len(rets) == 1
-        if disc_ok:
-            cond = parent(rets[0])
-            ct = X.value_at(get, cond.test) if isinstance(cond, ast.If) else ("const", None)
-            rv = X.at(get, rets[0].value)
-            conj = list(ct[2]) if ct[0] == "bool" and ct[1] == "and" else [ct]
-            has_flag = any(d[0] == "attr" and d[2] == "allows_discovery" and d[1] == rv for d in conj)
-            has_sup = any(d[0] == "call" and d[1][0] == "attr" and d[1][2] == "is_supported" and d[1][1] == rv for d in conj)
-            disc_ok = has_flag and has_sup and rv[0] == "iter"
+    # return sites of plug-ins: in get_plugin and in the private lookup helpers it calls
+    lookup_funcs = [(get, [])]
+    for call_, cs, _k in ctx.cg.all_callees(get):
+        for g in cs:
+            if g.cls is c and g is not get and g.name.startswith("_") and not any(g is f_ for f_, _l in lookup_funcs):
+                lookup_funcs.append((g, lits_at(get, stmt_of(call_))))
+    explicit_sites, disc_sites = [], []
+    for f_, outer in lookup_funcs:
+        for r_ in nodes_in(f_, ast.Return):
+            if r_.value is None:
+                continue
+            rv = X.at(f_, r_.value)
+            lits = lits_at(f_, r_) + outer
+            for a in _strip_alts(rv):
+                if a[0] == "call" and a[1][0] == "attr" and a[1][2] == "get" and any(b[0] == "sub" for b in _strip_alts(a[1][1])) and _term_is_subreg(a[1][1], reg):
+                    explicit_sites.append((f_, r_, a, lits))
+                elif a[0] == "iter" and a[1][0] == "call" and a[1][1][0] == "attr" and a[1][1][2] == "values" and _term_is_subreg(a[1][1][1], reg):
+                    disc_sites.append((f_, r_, a, lits))
+    explicit_ok = len(explicit_sites) == 1
+    if explicit_ok:
+        f_, r_, rv0, lits = explicit_sites[0]
+        rv = _norm(rv0)
+        truthy = any(p and a == rv for a, p in lits) or any((not p) and a[0] == "cmp" and a[1] == "is" and a[2] == rv and a[3] == ("const", None) for a, p in lits)
+        sup_ok = any(p and a[0] == "call" and a[1] == ("attr", rv, "is_supported") for a, p in lits)
+        key_ok = bool(rv0[2]) and _is_lowered(ctx, rv0[2][0])
+        explicit_ok = truthy and sup_ok and key_ok
+    disc_ok = len(disc_sites) == 1
+    if disc_ok:
+        f_, r_, rv0, lits = disc_sites[0]
+        rv = _norm(rv0)
+        has_flag = any(p and a == ("attr", rv, "allows_discovery") for a, p in lits)
+        has_sup = any(p and a[0] == "call" and a[1] == ("attr", rv, "is_supported") for a, p in lits)
+        unordered = contains(rv, lambda s_: s_[0] == "call" and s_[1][0] == "builtin" and s_[1][1] in ("sorted", "reversed", "set"))
+        in_loop = False
+        cur = parent(r_)
+        while cur is not None and cur is not f_.node:
+            if isinstance(cur, ast.For):
+                in_loop = True
+            cur = parent(cur)
+        disc_ok = has_flag and has_sup and not unordered and in_loop
+    # the two lookups exclude each other: one test (on the split result) separates them
+    if explicit_ok and disc_ok:
+        le, ld = explicit_sites[0][3], disc_sites[0][3]
+        from ..util import strict_lt
+
+        le, ld = [strict_lt(a, p) for a, p in le], [strict_lt(a, p) for a, p in ld]
+        excl = any(a == b and p != q for a, p in le for b, q in ld)
+        if not excl:
+            explicit_ok = False
     res.add(get, get.node, "an explicit `plugin/method` consults only the named plug-in and returns it iff it exists and supports the method", explicit_ok,
             "" if explicit_ok else "the explicit path does not return exactly the named, supporting plug-in", construct="get_plugin: explicit path")
     res.add(get, get.node, "a bare method name returns the first plug-in in registry order with allows_discovery and is_supported", disc_ok,
             "" if disc_ok else "discovery does not honour the flag / registry order / first match", construct="get_plugin: discovery path")
-    # failure raises ConfigError: no normal exit without a return
+    # failure raises ConfigError: no normal exit without a return, and a returned lookup result is never None
     path = pf.find_path(cfg.entry, lambda m: m is cfg.exit, edge_ok=lambda a, b, lab: lab != "return")
-    res.add(get, get.node, "every path without a match ends in `raise ConfigError`", path is None,
-            "" if path is None else "lookup can fall off the end and return None", [] if path is None else describe_path(get, path), construct="get_plugin: failure raises")
+    none_ret = None
+    for r_ in nodes_in(get, ast.Return):
+        if r_.value is None:
+            none_ret = r_
+            continue
+        rv = X.value_at(get, r_.value)
+        if any(a == ("const", None) for _c, a in _leaves(rv)):
+            lits = lits_at(get, r_)
+            name_t = X.at(get, r_.value)
+            if not any((not p) and a[0] == "cmp" and a[1] == "is" and a[3] == ("const", None) and a[2] == name_t for a, p in lits) and not any(p and a == name_t for a, p in lits):
+                none_ret = r_
+    ok = path is None and none_ret is None
+    res.add(get, get.node, "every path without a match ends in `raise ConfigError`", ok,
+            "" if ok else "lookup can fall off the end and return None", [] if path is None else describe_path(get, path), construct="get_plugin: failure raises")
     raises = [cfg._exc_qual(x.exc) for x in nodes_in(get, ast.Raise) if x.exc is not None]
     ok = bool(raises) and all(q == CONFIG_ERR for q in raises)
     res.add(get, get.node, "lookup failures raise ConfigError", ok, "" if ok else f"raises {raises}", construct="get_plugin: raises ConfigError")
@@ -210,13 +312,20 @@ def c19_2(ctx: Ctx) -> RuleResult:
         t = tries[0]
         calls_get = any(isinstance(x, ast.Call) and isinstance(x.func, ast.Attribute) and x.func.attr == "get_plugin" for s in t.body for x in ast.walk(s))
         scfg = cfg_of(ctx.repo, sup)
-        h_ok = len(t.handlers) == 1 and scfg._handler_classes(t.handlers[0]) == [CONFIG_ERR] and len(t.handlers[0].body) == 1 and isinstance(t.handlers[0].body[0], ast.Return) and isinstance(t.handlers[0].body[0].value, ast.Constant) and t.handlers[0].body[0].value.value is False
+        hb = t.handlers[0].body if len(t.handlers) == 1 else []
+        false_const = lambda v: isinstance(v, ast.Constant) and v.value is False  # noqa: E731
+        h_ok = len(t.handlers) == 1 and scfg._handler_classes(t.handlers[0]) == [CONFIG_ERR] and len(hb) == 1 and (
+            (isinstance(hb[0], ast.Return) and false_const(hb[0].value)) or (isinstance(hb[0], ast.Assign) and isinstance(hb[0].targets[0], ast.Name) and false_const(hb[0].value)))
+        # True is produced only where the lookup did not raise: in the try body after the call, in `else`, or after the statement
         rt = X.return_term(sup)
         vals = {a[1] for a in (rt[1] if rt[0] == "phi" else (rt,)) if a[0] == "const"}
+        only_consts = all(a[0] == "const" for a in (rt[1] if rt[0] == "phi" else (rt,)))
+        trues = [x for x in ast.walk(sup.node) if isinstance(x, ast.Constant) and x.value is True]
+        true_ok = bool(trues) and not any(any(x is y for h_ in t.handlers for s_ in h_.body for y in ast.walk(s_)) for x in trues)
         # same arguments forwarded
         fw = [x for s in t.body for x in ast.walk(s) if isinstance(x, ast.Call) and isinstance(x.func, ast.Attribute) and x.func.attr == "get_plugin"]
         args_ok = bool(fw) and [ast.unparse(a) for a in fw[0].args] == sup.positional[1:3]
-        ok = calls_get and h_ok and vals == {True, False} and args_ok
+        ok = calls_get and h_ok and vals == {True, False} and only_consts and true_ok and args_ok
     res.add(sup, sup.node, "is_supported is True exactly when get_plugin (same arguments) does not raise ConfigError", ok,
             "" if ok else "is_supported is not `lookup did not raise ConfigError`", construct="is_supported wraps get_plugin")
     # the external optimizer is not discoverable
